@@ -92,7 +92,7 @@ def expInit : ExpSt :=
     first := none, streams := [] }
 
 inductive Step where
-  | done (r : Res (List Stream))       -- `break` (ok) or an error return
+  | done (r : Res (List Stream × Bool)) -- `break` (ok; the flag: left through the data branch) or an error return
   | more (st : ExpSt) (rest : List Member)
   deriving Repr, DecidableEq
 
@@ -119,7 +119,7 @@ def expandStep (pgs : PrefixList) (st : ExpSt) (ms : List Member) : Step :=
   | none => .done .err
   | some (st1, last) =>
     match ms with
-    | [] => .done (.ok st1.streams)                   -- gzip.NewReader / Reset: io.EOF → break
+    | [] => .done (.ok (st1.streams, false))          -- gzip.NewReader / Reset: io.EOF → break
     | m :: rest =>
       if !m.headerOk then .done .err else
       if !last then
@@ -129,10 +129,10 @@ def expandStep (pgs : PrefixList) (st : ExpSt) (ms : List Member) : Step :=
       else
         if !m.restSumsOk then .done .err else
         if !m.restOk then .done .err else
-        .done (.ok (st1.streams ++ [.tail (m :: rest)]))
+        .done (.ok (st1.streams ++ [.tail (m :: rest)], true))
 
 /-- the loop; `none` = the fuel ran out (the Go loop would still be running) -/
-def expandRun (pgs : PrefixList) : Nat → ExpSt → List Member → Option (Res (List Stream))
+def expandRun (pgs : PrefixList) : Nat → ExpSt → List Member → Option (Res (List Stream × Bool))
   | 0, _, _ => none
   | fuel + 1, st, ms =>
     match expandStep pgs st ms with
@@ -144,12 +144,33 @@ def streamTarOk : Stream → Bool
   | .tail [] => false
   | .tail (m :: _) => m.restTarOk
 
-/-- after the loop: the `switch numGzipStreams` and the index expressions that follow it; the answer is
-(signed, number of sections) -/
-def expandFinish (cases : List (Nat × Int × Int × Int)) (streams : List Stream) : Res (Bool × Nat) :=
+/-- the `dataRead` flag as the source handles it (regenerated statement list): is it set where the data
+branch leaves the loop, and is it tested right after the switch on the number of streams? -/
+structure DataFlag where
+  setInDataBranch : Bool
+  setElsewhere : Bool
+  tested : Bool
+  deriving Repr, DecidableEq
+
+def dataFlagOf (l : List (String × String)) : DataFlag :=
+  { setInDataBranch := l.contains ("data-branch", "dataRead = true"),
+    setElsewhere := l.any fun p => p.2 = "dataRead = true" && p.1 != "data-branch",
+    tested := l.contains ("after-switch", "if !dataRead { return nil, <error> }") }
+
+def expandDataFlag : DataFlag := dataFlagOf Generated.expandDataRead
+
+/-- the value of `dataRead` after the loop -/
+def DataFlag.value (d : DataFlag) (viaData : Bool) : Bool := (d.setInDataBranch && viaData) || d.setElsewhere
+
+/-- after the loop: the `switch numGzipStreams`, the `if !dataRead` test and the index expressions that
+follow; the answer is (signed, number of sections) -/
+def expandFinish (cases : List (Nat × Int × Int × Int)) (d : DataFlag) (res : List Stream × Bool) :
+    Res (Bool × Nat) :=
+  let streams := res.1
   match cases.find? (fun c => c.1 = streams.length) with
   | none => .err                                      -- default: invalid number of tar streams
   | some (_, sig, ctl, pkg) =>
+    if d.tested && !d.value res.2 then .err else      -- apk has no data section
     (idxInt streams ctl).bind fun c =>
     (idxInt streams pkg).bind fun p =>
     (if sig ≥ 0 then (idxInt streams sig).bind fun _ => .ok () else .ok ()).bind fun _ =>
@@ -157,11 +178,11 @@ def expandFinish (cases : List (Nat × Int × Int × Int)) (streams : List Strea
     if !streamTarOk p then .err else .ok (decide (sig ≥ 0), streams.length)
 
 /-- `ExpandApk` on a stream of members -/
-def expandApkG (pgs : PrefixList) (cases : List (Nat × Int × Int × Int)) (ms : List Member) :
+def expandApkG (pgs : PrefixList) (cases : List (Nat × Int × Int × Int)) (d : DataFlag) (ms : List Member) :
     Option (Res (Bool × Nat)) :=
   match expandRun pgs (bytes ms + 1) expInit ms with
   | none => none
-  | some r => some (r.bind (expandFinish cases))
+  | some r => some (r.bind (expandFinish cases d))
 
 /-! ## tar entry loops -/
 
